@@ -47,6 +47,9 @@ type schedScenario struct {
 	Ops   []schedOp
 	Post  func(x *schedCtx) string
 	Cfg   vsched.Config
+	// Judge (optional): an oracle of the scenario's own, applied to the observations of every execution - for what
+	// the comparison with the coarse-grained runs of the same code cannot see (a wrong answer every order produces)
+	Judge func(obs []string) (sig, what string)
 }
 
 // runConcurrent executes the scenario once with every op in its own thread.
@@ -239,6 +242,9 @@ func exploreShardProp(prop string, sc *schedScenario, class string, bound, maxEx
 			return
 		}
 		viol[sig] = &workerViolation{sig, what, replay, 1}
+	}
+	if judge == nil {
+		judge = sc.Judge
 	}
 	tmp := fw.NewCheck(prop, "worker", "model_checking")
 	allowed, seqRuns, seqBroken := map[string]bool{}, 0, false
